@@ -269,4 +269,21 @@ def plan_C20(ctx, rt):
                       rule="as C01 with retention in {1,2,3,5}; stored snapshot list compared after every call")
 
 
-PLANS = {"C01": plan_C01, "C02": plan_C02, "C07": plan_C07, "C08": plan_C08, "C20": plan_C20}
+def restart_profiles():
+    q = [dict(n=10, steps=50, backend="sql", regime="causal", profile="core", restarts=1),
+         dict(n=10, steps=60, backend="sql", regime="causal", profile="members", restarts=1, retention=2),
+         dict(n=6, steps=50, backend="mixed", regime="causal", profile="members", restarts=1)]
+    t = [dict(n=50, steps=70, backend=["sql", "mixed"][i % 2], regime="causal", profile=["core", "members"][i % 2],
+              restarts=1, retention=[5, 2, 1, 3][i % 4]) for i in range(8)]
+    return {"quick": q, "thorough": t}
+
+
+def plan_C11(ctx, rt):
+    return run_marmot(ctx, rt, invariants=["InvC01", "InvC02", "InvC08", "InvC20"], properties=["ActC02"], view="C11", mc=MC_CORE,
+                      profiles=restart_profiles(), nontrivial=nt_restart, assumptions=ASSUME_MARMOT,
+                      rule="seeded random histories on SQLite-backed clients in which the MDK instance and its storage are dropped and "
+                           "re-created from the file between random API calls; every later call must be the step the (as-built) spec "
+                           "predicts with a stuttering Restart; non-trivial = history contains at least one restart")
+
+
+PLANS = {"C11": plan_C11, "C01": plan_C01, "C02": plan_C02, "C07": plan_C07, "C08": plan_C08, "C20": plan_C20}
